@@ -33,7 +33,7 @@ Fixpoint tlvs_meaning (esm : Z) (codec : enc) (tl : list (Z * list Z)) (acc : li
     else match tag_data_type tag with
          | TyInt => do x <- int_of_bytes v; tlvs_meaning esm codec t (acc ++ [{| op_tag := tag; op_val := TInt x |}]) payload
          | TyBool => tlvs_meaning esm codec t (acc ++ [{| op_tag := tag; op_val := TBool true |}]) payload
-         | TyStr => do s <- ascii_decode v;
+         | TyStr => do s <- (if mem tag tlv_cstring_tags_tlv then ascii_decode v else Ok v);    (* C-octet strings are ASCII; octet strings any octets *)
                     tlvs_meaning esm codec t (acc ++ [{| op_tag := tag; op_val := TStr (strip_nul tag s) |}]) payload
          end
   end.
@@ -111,7 +111,7 @@ Proof.
         apply IH; [exact Hwt|lia| |].
         -- rewrite Nat.add_0_r in Hnext. exact Hnext.
         -- lia.
-      * rewrite Hslice. destruct (ascii_decode v) as [s|]; cbn [rbind]; [|reflexivity].
+      * rewrite Hslice. destruct (if mem tag tlv_cstring_tags_tlv then ascii_decode v else Ok v) as [s|]; cbn [rbind]; [|reflexivity].
         apply IH; [exact Hwt|lia|exact Hnext|exact Hlen'].
 Qed.
 
@@ -234,12 +234,13 @@ Definition tl_of (opts : list optparam) : list (Z * list Z) := flat_map tlv_of_o
 Definition norm_opts (opts : list optparam) : list optparam :=
   filter (fun p => match op_val p with TBool false => false | _ => true end) opts.
 
-(* constructor-valid: the value has the type the tag calls for, the tag is not message_payload, strings are ASCII *)
+(* constructor-valid: the value has the type the tag calls for, the tag is not message_payload, C-octet strings are ASCII,
+   octet strings any octets (one per character) *)
 Definition opt_wf (p : optparam) : Prop :=
   op_tag p <> TAG_MESSAGE_PAYLOAD /\
   match tag_data_type (op_tag p), op_val p with
   | TyInt, TInt _ => True
-  | TyStr, TStr s => ascii_text s
+  | TyStr, TStr s => if mem (op_tag p) tlv_cstring_tags_tlv then ascii_text s else octet_text s
   | TyBool, TBool _ => True
   | _, _ => False
   end.
@@ -283,8 +284,10 @@ Proof.
       * unfold tlv_area. cbn [map concat fst snd]. unfold spec_tlv. cbn [length Z.of_nat]. rewrite !app_nil_r. reflexivity.
       * constructor; [|constructor]. unfold wf_tlv. cbn [fst snd length]. split; [exact R1|]. split; [lia|]. intros; reflexivity.
     + injection H as <-. split; [reflexivity|constructor].
-  - destruct (ascii_encode s) as [val|] eqn:Ea; cbn [rbind] in H; [|discriminate].
-    assert (val = s) as -> by (unfold ascii_encode in Ea; destruct (forallb _ s); [injection Ea as <-; reflexivity|discriminate]).
+  - destruct (if mem (op_tag p) tlv_cstring_tags_tlv then ascii_encode s else latin1_encode s) as [val|] eqn:Ea; cbn [rbind] in H; [|discriminate].
+    assert (val = s) as ->.
+    { destruct (mem (op_tag p) tlv_cstring_tags_tlv); [unfold ascii_encode in Ea|unfold latin1_encode in Ea];
+        (destruct (forallb _ s); [injection Ea as <-; reflexivity|discriminate]). }
     apply rapp_inv in H as (x1 & r1 & H1 & H & ->). apply rapp_inv in H as (x2 & x3 & H2 & H3 & ->).
     apply packH_inv in H1 as [R1 ->]. apply packH_inv in H2 as [R2 ->]. injection H3 as <-.
     (* the length field is the length of the value written *)
@@ -354,9 +357,11 @@ Proof.
     + cbn [app]. apply (IH acc payload Hwt Hot).
   - (* strings *)
     cbn [app tlvs_meaning]. rewrite Ep, Ety.
-    assert (ascii_text (if mem tag tlv_cstring_tags_tlv then s ++ [0] else s)) as Ha.
-    { destruct (mem tag tlv_cstring_tags_tlv); [|exact Hty]. apply Forall_app. split; [exact Hty|constructor; [lia|constructor]]. }
-    rewrite (ascii_decode_text _ Ha). cbn [rbind].
+    assert ((if mem tag tlv_cstring_tags_tlv then ascii_decode (if mem tag tlv_cstring_tags_tlv then s ++ [0] else s)
+             else Ok (if mem tag tlv_cstring_tags_tlv then s ++ [0] else s))
+            = Ok (if mem tag tlv_cstring_tags_tlv then s ++ [0] else s)) as Ha.
+    { destruct (mem tag tlv_cstring_tags_tlv); [|reflexivity]. apply ascii_decode_text. apply Forall_app. split; [exact Hty|constructor; [lia|constructor]]. }
+    rewrite Ha. cbn [rbind].
     assert (strip_nul tag (if mem tag tlv_cstring_tags_tlv then s ++ [0] else s) = s) as ->.
     { unfold strip_nul. destruct (mem tag tlv_cstring_tags_tlv); [|reflexivity]. rewrite rev_app_distr. cbn [rev app]. apply rev_involutive. }
     rewrite (IH _ payload Hwt Hot), <- app_assoc. reflexivity.
